@@ -12,6 +12,14 @@ ASSUMES = ['observables are Hermitian and mutually commuting (the domain of the 
 
 
 def c_measure(ctx, args):
+    NP.set_layout(args[3] if len(args) > 3 else 'c')
+    try:
+        return _measure(ctx, args[:3])
+    finally:
+        NP.set_layout('c')
+
+
+def _measure(ctx, args):
     t, obs, seed = args
     n = len(t[0]) // 2
     NP.seed_numba(seed)
@@ -111,7 +119,7 @@ def run(ctx):
             o = gen.rpauli(rng, n, herm=True)
             obs = [o, [o[0], (o[1] + 2) % 4]] if rng.random() < 0.3 else [o]
         minus = any(p == 2 for _, p in t[0][:n]) or any(o[1] == 2 for o in obs)
-        r = do(ctx, 'measure', [t, obs, rng.randrange(10 ** 6)], sample=(it < 3))
+        r = do(ctx, 'measure', [t, obs, rng.randrange(10 ** 6), rng.choice(['c', 'c', 'c', 'strided', 'fortran', 'colslice'])], sample=(it < 3))
         flags = ctx.model.call('measure_flags', t, obs) if ctx.model else []
         if t[1] > 0 and minus and any(flags):
             ctx.res.nontrivial.add(('m', it))
